@@ -148,7 +148,9 @@ def make_facet(det, nq, nt):
         name=det, check=check, strategy=lambda tier, d=det: cases(tier, d),
         rule=(f"{det}: hyper-parameters over the documented domain (boundary values included), scorers admissible for the "
               "setting, data = structured signals (shifts/spikes/bumps at the first/last admissible positions), exact / "
-              "generic / constant families, n from the documented minimum; non-trivial = at least one detection"),
+              "generic / constant families, n from the documented minimum; input as ndarray or DataFrame (9 index kinds incl. repeated time "
+              "stamps, 8 column-label kinds); optionally a second predict on the same fitted detector (frame shortened in place, shorter new "
+              "object, buffer refilled in place), held to the same predicate; non-trivial = at least one detection"),
         n_quick=nq, n_thorough=nt, shards_quick=4, shards_thorough=8)
 
 
